@@ -42,7 +42,15 @@ def scenario(task):
             if o["outcome"] != "ideal":
                 out["bad"].append(("create-failed", f"open(create_cache=True) -> {o['outcome']}: {o.get('error') or o.get('diff')}"))
                 return out
-        if task["producer"] in ("cli-adjacent", "both", "cli-adjacent-moved"):
+        if task["producer"] == "cli-adjacent-linked":
+            # a product "view": the image files of the directory are symbolic links into a pool elsewhere; the tool is given the link
+            d0 = drv.url.replace("file://", "")
+            pool = os.path.join(os.path.dirname(d0), "pool_of_" + os.path.basename(d0))
+            os.makedirs(pool, exist_ok=True)
+            for m, nm in drv.names.items():
+                os.replace(os.path.join(d0, nm), os.path.join(pool, nm))
+                os.symlink(os.path.join(pool, nm), os.path.join(d0, nm))
+        if task["producer"] in ("cli-adjacent", "both", "cli-adjacent-moved", "cli-adjacent-linked"):
             for m in drv.names:
                 o = step({"op": "cli", "img": m, "rpc": rw}, "ceos-alos2-create-cache <image>")
                 if o["outcome"] != "ideal":
@@ -63,7 +71,8 @@ def scenario(task):
                     out["bad"].append(("cli-failed", f"ceos-alos2-create-cache <image> <user cache dir> failed: {rc}"))
                     return out
         cells = drv.cells()
-        want_loc = {"option": ["local"], "cli-adjacent": ["adjacent"], "both": ["local", "adjacent"], "cli-target": ["local"], "cli-adjacent-moved": ["adjacent"]}[task["producer"]]
+        want_loc = {"option": ["local"], "cli-adjacent": ["adjacent"], "both": ["local", "adjacent"], "cli-target": ["local"], "cli-adjacent-moved": ["adjacent"],
+                    "cli-adjacent-linked": ["adjacent"]}[task["producer"]]
         for loc in want_loc:
             for m in drv.names:
                 if cells[loc][m] != "complete":
@@ -80,6 +89,30 @@ def scenario(task):
                 out["bad"].append(("line-records-reread", f"usable cache present but the image line records were re-read at open time: {o['src']}"))
             if task["producer"] == "cli-adjacent" and not o["index_reads"]:
                 out["bad"].append(("index-not-read", "adjacent cache present but no index file was read"))
+        # ---- on a local disk reads cannot be observed: POISON the line records instead (every record prefix behind its 12-byte preamble is
+        # overwritten, the pixels stay): a cached open does not look at them and still returns the ideal tree
+        if task["fs"] in ("local", "file") and not out["bad"]:
+            d0 = drv.url.replace("file://", "")
+            saved = {}
+            for im in drv.b.images:
+                pth = os.path.join(d0, im["name"])
+                data = bytearray(open(pth, "rb").read())
+                saved[pth] = bytes(data)
+                reclen = im["prefix"] + im["p"] * im["bps"]
+                for i in range(im["n"]):
+                    s0 = 720 + i * reclen
+                    data[s0 + 12:s0 + im["prefix"]] = b"\x2a" * (im["prefix"] - 12)
+                with open(pth, "r+b") as f:
+                    f.write(data)
+            try:
+                o2 = step({"op": "open", "uc": True, "cc": False, "rpc": rr, "expect": {"src": {}}}, "use_cache=True over poisoned line records")
+                if o2["outcome"] != "ideal":
+                    out["bad"].append(("line-records-reread", f"a usable cache was produced ({task['producer']}) but open(use_cache=True) looked at the image's line records again "
+                                       f"(they were overwritten in the meantime): {o2.get('error') or o2.get('diff')}"))
+            finally:
+                for pth, data in saved.items():
+                    with open(pth, "r+b") as f:
+                        f.write(data)
         # ---- use_cache=False must not consult anything: poison every index first
         poisoned = 0
         for m in drv.names:
@@ -183,8 +216,8 @@ def body(chk):
     i = 0
     for level in ("1.5", "1.1"):
         for fs in ("local", "file", "memory", "vtrace"):
-            for producer in ("option", "cli-adjacent", "both", "cli-target", "cli-adjacent-moved"):
-                if producer in ("cli-target", "cli-adjacent-moved") and fs not in ("local", "file"):
+            for producer in ("option", "cli-adjacent", "both", "cli-target", "cli-adjacent-moved", "cli-adjacent-linked"):
+                if producer in ("cli-target", "cli-adjacent-moved", "cli-adjacent-linked") and fs not in ("local", "file"):
                     continue
                 pairs = [(1, 2), (2, 1), (3, 3)] if chk.tier == "thorough" else [((1, 2), (2, 1), (3, 2))[i % 3]]
                 for rw, rr in pairs:
